@@ -15,7 +15,7 @@ THEOREMS = ['C09_' + n for n in (
     'field_data_chief_zero opd_definition_infinite opd_definition_finite '
     'sample_points_on_reference_sphere rms_is_rms rms_nonneg rms_zero_iff fan_is_slice '
     'opd_difference_is_mean_abs_dev opd_difference_nonneg opd_difference_constant image_to_xp_miss '
-    'image_to_xp_finite_sound generate_data_entry rms_vs_field_table rms_vs_field_shape').split()]
+    'image_to_xp_finite_sound generate_data_entry rms_vs_field_table rms_vs_field_shape launch_distance_positive').split()]
 COQ_TARGETS = ['Model/M_C09.vo', 'Model/Trace.vo', 'Model/Paraxial.vo']
 TRUSTED_BASE = BASE_TRUSTED + [
     'translator extension tools/py2coq_c09.py (record rows x[-1, :], .size, (Hx, Hy) pairs, wavefront data cells, '
@@ -399,15 +399,20 @@ def _derived_checks(ctx):
     gd = 0
     tries = 0
     import paraxcorr
-    while gd < ctx.n(3, 20) and tries < 200:
+    while gd < ctx.n(5, 30) and tries < 300:
         tries += 1
-        spec = c09lib.gen_spec(rng)
+        spec = c09lib.gen_dispersive_spec(rng) if tries % 3 else c09lib.gen_spec(rng)
         if len(spec['fields']) < 2 and len(spec['wavelengths']) < 2:
             continue
         try:
             o = lensgen.build(spec)
             dist = c09lib.make_distribution(rng.choice(['hexapolar', 'cross', 'ring']), 2)
-            wf = Wavefront(o, 'all', 'all', num_rays=2, distribution=dist)
+            order = [float(w_) for w_, _ in spec['wavelengths']]
+            if tries % 2:
+                order = order[::-1]          # explicit list in the other order
+                wf = Wavefront(o, 'all', order, num_rays=2, distribution=dist)
+            else:
+                wf = Wavefront(o, 'all', 'all', num_rays=2, distribution=dist)
         except Exception:   # noqa
             continue
         flat = [float(v) for row in wf.data for cell in row for v in np.ravel(cell[0])]
@@ -448,6 +453,92 @@ def _derived_checks(ctx):
     return res[0], done, bad
 
 
+def _multi_checks(ctx, nl, seed_mul=43):
+    """multi-wavelength calls on dispersive lenses with off-axis fields: Wavefront with an explicit wavelength
+    list in both orders and with 'all', OPDFan('all', 'all'), RmsWavefrontErrorVsField('all'); every
+    (field, wavelength) cell against the oracle, and the per-wavelength results against each other
+    (they must not depend on the order / company of the wavelengths).  Returns (cells, lenses, witnesses, hist)"""
+    import random
+    import warnings
+    import numpy as np
+    import lensgen
+    import c09lib
+    warnings.simplefilter('ignore')
+    np.seterr(all='ignore')
+    from optiland.wavefront import Wavefront, OPDFan
+    from optiland.analysis.rms_vs_field import RmsWavefrontErrorVsField
+    rng = random.Random(ctx.seed * seed_mul + 9)
+    hist = {'lenses': 0, 'cells': 0, 'curved_image': 0, 'calls': {}, 'errors': {}, 'max_lateral_colour_mm': 0.0}
+    wits = []
+    cells = 0
+    tries = 0
+    while hist['lenses'] < nl and tries < 8 * nl:
+        tries += 1
+        spec = c09lib.gen_dispersive_spec(rng)
+        try:
+            o = lensgen.build(spec)
+            wls = [float(w_) for w_, _ in spec['wavelengths']]
+            fields = [tuple(float(v) for v in H) for H in o.fields.get_field_coords()]
+            dn = rng.choice(['hexapolar', 'ring', 'line_y', 'uniform'])
+            dist = c09lib.make_distribution(dn, 2 if dn == 'hexapolar' else 5)
+            nr = len(dist.x)
+            calls = {
+                'Wavefront(list)': (Wavefront(o, fields, wls, nr, dist), fields, wls, dist),
+                'Wavefront(reversed list)': (Wavefront(o, fields, wls[::-1], nr, dist), fields, wls[::-1], dist),
+                "Wavefront('all','all')": (Wavefront(o, 'all', 'all', nr, dist), fields, wls, dist),
+            }
+            fan = OPDFan(o, 'all', 'all', num_rays=4)
+            calls["OPDFan('all','all')"] = (fan, fields, wls, fan.distribution)
+            rvf = RmsWavefrontErrorVsField(o, num_fields=3, wavelengths='all', num_rays=2)
+            calls["RmsWavefrontErrorVsField('all')"] = (rvf, [tuple(float(v) for v in H) for H in rvf.fields], wls, rvf.distribution)
+        except Exception as e:   # noqa
+            hist['errors'][type(e).__name__] = hist['errors'].get(type(e).__name__, 0) + 1
+            continue
+        # lateral colour of the largest field (what makes the per-wavelength spheres differ)
+        ys = []
+        for w_ in wls:
+            o.trace_generic(*fields[-1], Px=0.0, Py=0.0, wavelength=w_)
+            ys.append(float(o.surface_group.y[-1, 0]))
+        if not all(math.isfinite(v) for v in ys):
+            continue
+        hist['lenses'] += 1
+        hist['curved_image'] += int(bool(spec.get('image_radius')))
+        hist['max_lateral_colour_mm'] = max(hist['max_lateral_colour_mm'], max(ys) - min(ys))
+        per_cell = {}
+        for cname, (obj, flds, ws, dd) in calls.items():
+            hist['calls'][cname] = hist['calls'].get(cname, 0) + 1
+            for i, H in enumerate(flds):
+                for j, w_ in enumerate(ws):
+                    try:
+                        c = c09lib.case_from_data(spec, o, H, w_, dd, obj.data[i][j][0], obj.data[i][j][1], fidx=i,
+                                                  dist_name=cname)
+                    except Exception as e:   # noqa
+                        hist['errors'][type(e).__name__] = hist['errors'].get(type(e).__name__, 0) + 1
+                        continue
+                    if not all(math.isfinite(v) for v in c['chief'][-1][:6]):
+                        continue
+                    cells += 1
+                    w = c09lib.oracle_case(c)
+                    if w is not None:
+                        w['call'] = cname
+                        w['wavelength_list'] = ws
+                        w['explained_by'] = None
+                        wits.append(w)
+                    if cname.startswith('Wavefront'):
+                        per_cell.setdefault((i, w_), []).append((cname, c['data'], c09lib.newton_slack(c)))
+        # the result for a (field, wavelength) must not depend on which other wavelengths were asked for, or in what order
+        for (i, w_), lst in per_cell.items():
+            ref = lst[0]
+            for other in lst[1:]:
+                dmax = max((abs(a - b) for a, b in zip(ref[1], other[1]) if math.isfinite(a) and math.isfinite(b)), default=0.0)
+                if dmax > 1e-6 + ref[2]:
+                    wits.append({'spec': spec, 'derived': 'the OPD of a (field, wavelength) depends on the order of the wavelength list',
+                                 'field_index': i, 'wavelength': w_, 'calls': [ref[0], other[0]], 'max_difference_waves': dmax,
+                                 'explained_by': None, 'violates_property': True})
+    hist['cells'] = cells
+    return cells, hist['lenses'], wits, hist
+
+
 def system_checks(ctx):
     import c09lib
     cases, hist = _cases(ctx, ctx.n(55, 700))
@@ -485,6 +576,17 @@ def system_checks(ctx):
             res['samples'].append({'surfaces': [s['shape'][0] for s in c['surfs']], 'H': c['H'], 'wavelength': c['w'],
                                    'distribution': [c['dist_name'], c['dist_n']], 'opd_waves': c['data'][:4]})
         yield res
+    res3 = {'name': 'multi-wavelength-cells-vs-oracle', 'n': 0, 'nontrivial': 0, 'samples': [], 'disagreements': []}
+    try:
+        n3, l3, w3, h3 = _multi_checks(ctx, ctx.n(8, 80))
+        res3.update(n=n3, nontrivial=l3, histogram=h3, disagreements=w3[:20])
+        res3['note'] = ('dispersive catalogue-glass lenses, off-axis fields, half with curved image surfaces; Wavefront with an explicit '
+                        "wavelength list in both orders and 'all', OPDFan, RmsWavefrontErrorVsField: every cell against the oracle, "
+                        'per-wavelength results independent of the list order')
+    except Exception as e:   # noqa
+        import traceback
+        res3['error'] = traceback.format_exc()[-800:]
+    yield res3
     res2 = {'name': 'derived-quantities-vs-implementation', 'n': 0, 'nontrivial': 0, 'samples': [], 'disagreements': []}
     try:
         n, lenses, bad = _derived_checks(ctx)
@@ -514,6 +616,10 @@ def search(ctx, broken, disagreements):
         else:
             unlisted = w
             break
+    if unlisted is None:
+        _, _, wits, _ = _multi_checks(ctx, ctx.n(15, 120), seed_mul=47)
+        if wits:
+            unlisted = wits[0]
     if unlisted is None:
         unlisted = _derived_oracle(ctx)
     return unlisted or listed
